@@ -54,9 +54,13 @@ def replay_walks(rep, g, walks, names, label):
     reqs = []
     for prefix, tail, _ in walks:
         acts = [a for a, _ in prefix] + [a for a, _ in tail]
-        reqs.append({"id": len(reqs), "mode": "session", "stmts": [S.stmt(a) for a in acts],
+        # the definitions of the user functions the FailingCall spellings call come first (they define no variable)
+        reqs.append({"id": len(reqs), "mode": "session", "stmts": [S.FN_DEFS] + [S.stmt(a) for a in acts],
                      "opts": {"store": True, "names": list(names), "shape": False}})
     outs = execpool.run_requests(reqs, nworkers=16, timeout=120)
+    for r_, (resp_, oc_) in zip(reqs, outs):      # drop the definitions' step
+        r_["stmts"] = r_["stmts"][1:]
+        if oc_ == "ok" and "steps" in (resp_ or {}): resp_["steps"] = resp_["steps"][1:]
     validated = 0; masked = 0; stmts_run = 0
     for (prefix, tail, npre), req, (resp, oc) in zip(walks, reqs, outs):
         seq = prefix + tail
@@ -131,7 +135,8 @@ def random_action(rnd, names, allow_copy):
     if r < 0.86: return A("TupleElemAssign", n)
     if r < 0.89: return A("Destructure", n, m)
     if r < 0.91: return A("DestructureTooMany", n, m)
-    if r < 0.95: return A("DestructureVar", n, m, k)
+    if r < 0.94: return A("DestructureVar", n, m, k)
+    if r < 0.97: return A("FailingCall", n, i=rnd.randrange(10))
     return A("Eval", n)
 
 def abstract_value(p):
@@ -163,9 +168,12 @@ def trace_validation(rep, tier, seed):
         allow_copy = (sidx % 3 != 0)          # a third of the sessions avoid define-from-variable
         acts = [random_action(rnd, NAMES3, allow_copy) for _ in range(rnd.randint(8, 28))]
         sessions.append(acts)
-    reqs = [{"id": i, "mode": "session", "stmts": [S.stmt(a) for a in acts],
+    reqs = [{"id": i, "mode": "session", "stmts": [S.FN_DEFS] + [S.stmt(a) for a in acts],
              "opts": {"store": True, "names": NAMES3, "shape": False}} for i, acts in enumerate(sessions)]
     outs = execpool.run_requests(reqs, nworkers=16, timeout=120)
+    for r_, (resp_, oc_) in zip(reqs, outs):      # drop the step of the function definitions
+        r_["stmts"] = r_["stmts"][1:]
+        if oc_ == "ok" and "steps" in (resp_ or {}): resp_["steps"] = resp_["steps"][1:]
     os.makedirs(os.path.join(tlc.OUT, "traces"), exist_ok=True)
     path = os.path.join(tlc.OUT, "traces", f"c05_{tier}.ndjson")
     nev = 0; index = []
